@@ -15,6 +15,19 @@ for id in $ids; do
   n=$(echo "$out" | grep -c '^VIOLATION')
   echo "SEED $d check=$id exit=$code violations=$n :: $(echo "$out" | grep "^$id tier" | cut -c1-160)"
   echo "$out" | grep '^VIOLATION' | head -3 | cut -c1-200
+  # record the result in meta.json (replacing an earlier record for the same check and tier)
+  sigs=$(echo "$out" | grep '^VIOLATION' | sed 's/.*replay=//' | xargs -r -n1 basename | head -8 | tr '\n' ',')
+  python3 - "$d/meta.json" "$id" "${TIER:-quick}" "$code" "$n" "$sigs" "$(git rev-parse --short HEAD)" <<'PY'
+import json,sys
+f,cid,tier,code,n,sigs,commit=sys.argv[1:8]
+m=json.load(open(f))
+runs=[r for r in m.get('checks_run',[]) if not (isinstance(r,dict) and r.get('check')==cid and r.get('tier')==tier)]
+runs.append({"check":cid,"tier":tier,"exit":int(code),"violations":int(n),"detected":int(code)==1 and int(n)>0,
+  "replay_files":[s for s in sigs.split(',') if s],"verif_commit_at_or_after":commit,
+  "how":"tools/seed_check.sh: patch.diff applied to a scratch worktree of /repo HEAD, check run with VERIF_REPO pointing at it"})
+m['checks_run']=runs
+json.dump(m,open(f,'w'),indent=1)
+PY
 done
 git -C /repo worktree remove --force "$wt"; rm -rf /root/.cache/verif-selftest/build.$$
 for id in $ids; do ./bin/verif check $id --tier quick >/dev/null 2>&1; done
